@@ -573,6 +573,27 @@ pub fn run(cx: &mut Ctx) {
             };
             let t = t.clamp(MIN_NS, MAX_NS);
             check_zoned(cx, z, t, unit, inc, mode);
+            if !changes.is_empty() && k % 16 == 5 {
+                // exactly at a transition and one tick beside it, and wherever the wall clock reads 00:00 under the
+                // offset before or after it (a day can start twice or not at 00:00 at all), under every mode
+                let c = *r.pick(&changes);
+                let (ob, oa) = (z.model.utoff(c - 1) as i64, z.model.utoff(c) as i64);
+                let mut probes: Vec<i128> = vec![c as i128 * 1_000_000_000, c as i128 * 1_000_000_000 - 1, c as i128 * 1_000_000_000 + 1];
+                for o in [ob, oa] {
+                    let day = (c + o).div_euclid(86_400);
+                    for d in [day - 1, day, day + 1] {
+                        for o2 in [ob, oa] {
+                            probes.push((d * 86_400 - o2) as i128 * 1_000_000_000);
+                        }
+                    }
+                }
+                for t in probes {
+                    let t = t.clamp(MIN_NS, MAX_NS);
+                    check_zoned(cx, z, t, 6, 1, mode);
+                    check_zoned(cx, z, t, unit, inc, *r.pick(&MODES));
+                    cx.count("zoned_roundings_at_transitions_and_midnights", 2);
+                }
+            }
             if k % 4 == 0 && legal_datetime(unit, inc) {
                 cx.nontrivial(hash64(format!("z{}|{}|{}|{}|{}", z.id, t, unit, inc, mode.idx()).as_bytes()));
             }
